@@ -1,6 +1,7 @@
 package c17
 
 import (
+	"regexp"
 	"fmt"
 	"sort"
 	"strings"
@@ -309,6 +310,83 @@ func checkHLSLText(c *c17case, r *report, given map[rb]hlslEntry, sbuf map[int]h
 		}
 		if missing, extra := diffMultiset(wantOut, gotOut); len(missing) > 0 || len(extra) > 0 {
 			r.fail(hlslIORule(missing, extra, "out"), "entry point %q (%s) outputs: missing %v, unexplained %v (modifiers|semantic)", e.Name, e.Stage, missing, extra)
+		}
+		hlslArgumentRebuild(c, r, sc, f, e, text)
+	}
+}
+
+var (
+	reHArgStruct = regexp.MustCompile(`^\s+[\w<>]+ (\w+) = \{ (.*) \};$`)
+	reHArgBare   = regexp.MustCompile(`^\s+[\w<>]+ (\w+) = (\w+)\.(\w+);$`)
+)
+
+// hlslArgumentRebuild: when the backend gathers all inputs of an entry point in one generated input
+// struct, the prologue of the function rebuilds the WGSL arguments from that struct's members
+// (`Varyings v = { in.pos, in.base }; float4 tint = in.tint_1;`).  Each WGSL input, in declaration order,
+// must be rebuilt from the member that carries ITS semantic.
+func hlslArgumentRebuild(c *c17case, r *report, sc *hlslScan, f *hlslFunc, e wgen.FullEntry, text string) {
+	if len(f.params) != 1 {
+		return
+	}
+	fields, ok := sc.structs[f.params[0].typ]
+	if !ok || len(fields) == 0 {
+		return
+	}
+	pname := f.params[0].name
+	semOf := map[string]string{}
+	for _, fl := range fields {
+		semOf[fl.name] = fl.sem
+	}
+	// the prologue: lines right after the function header
+	lines := strings.Split(text, "\n")
+	start := -1
+	for i, l := range lines {
+		if m := reHFunc.FindStringSubmatch(l); m != nil && m[2] == f.name {
+			start = i + 2 // header, "{"
+			break
+		}
+	}
+	if start < 0 {
+		return
+	}
+	var got []string // semantic of the member each flattened WGSL input is rebuilt from
+	for i := start; i < len(lines); i++ {
+		l := lines[i]
+		if m := reHArgStruct.FindStringSubmatch(l); m != nil && strings.Contains(m[2], pname+".") {
+			for _, part := range splitTop(m[2]) {
+				part = strings.TrimSpace(part)
+				if !strings.HasPrefix(part, pname+".") {
+					return // a shape this scanner does not know: say nothing
+				}
+				got = append(got, semOf[strings.TrimPrefix(part, pname+".")])
+			}
+			continue
+		}
+		if m := reHArgBare.FindStringSubmatch(l); m != nil && m[2] == pname {
+			got = append(got, semOf[m[3]])
+			continue
+		}
+		break
+	}
+	want, _, _ := hlslExpectedIO(e)
+	var wantSem []string
+	for _, io := range e.Inputs {
+		if io.Builtin == "num_workgroups" {
+			return // delivered through a constant buffer: different prologue
+		}
+	}
+	for _, w := range want {
+		wantSem = append(wantSem, w[strings.IndexByte(w, '|')+1:])
+	}
+	if len(got) != len(wantSem) {
+		r.class("hlsl:argument-rebuild:shape-not-recognised")
+		return
+	}
+	r.class("hlsl:argument-rebuild:checked")
+	for i := range got {
+		if got[i] != wantSem[i] {
+			r.fail("hlsl.io.argument-rebuild", "entry point %q: WGSL input #%d (%s) is bound to %s but the function prologue rebuilds it from the %s member of %s", e.Name, i, e.Inputs[i].Name, wantSem[i], got[i], f.params[0].typ)
+			return
 		}
 	}
 }
